@@ -6,6 +6,8 @@
 (* shard may first be populated with m plain records so that the range deletes of the alphabet    *)
 (* cover m, m+1 or m+2 keys - around the threshold (100) where the code changes its strategy -   *)
 (* with session-owned keys in front of and behind the block.                                      *)
+(* With Feats # {} the puts of the clients combine session ownership with sequence-key deltas      *)
+(* (generated key; the request key is only the prefix), index entries and version conditions.      *)
 (*  - exhaustively (VIEW hides the history): the C14 properties in every state / on every step;  *)
 (*  - as generator of behaviours replayed on a real RF=1 leader controller: `hist` records every *)
 (*    call with the outcome and the observable state the specification demands after it.         *)
@@ -18,11 +20,16 @@ CONSTANTS MaxN,       \* offsets (writes incl. session creation and cleanup writ
           MaxLc,      \* leader changes per behaviour
           KeySet,     \* "ab" | "abe" (with the empty key) | "abs" (with a key that needs escaping)
           Fills,      \* sizes m offered to Fill(m) as the first call of a behaviour ({}: never populated)
+          Feats,      \* put features the clients combine with session ownership, subset of {"seq", "idx", "cond"}:
+                      \*   "seq"  sequence-key deltas: the record is stored under a generated key "<key>-<n>", the
+                      \*          request key is only the prefix (and may itself hold a record - plain or ephemeral)
+                      \*   "idx"  a secondary-index entry (removed with the record when its session ends)
+                      \*   "cond" expected version: "must not exist" (-1) and the current version of the record
           Timeouts,   \* session timeouts in ticks
           Guarded,    \* TRUE: properties are claimed outside the known finding only (kf = {})
           RunDepth,   \* "runs" export: length of the simulated behaviours
           AvoidRace,  \* TRUE: clients do not write in the known-finding pattern (long behaviours stay judged)
-          Export      \* "none" | "steps" | "lagsteps" | "fillsteps" | "runs"
+          Export      \* "none" | "steps" | "lagsteps" | "fillsteps" | "featsteps" | "runs"
 
 VARIABLES sys, nhb, nlc, kf, base, hist
 mvars == <<sys, nhb, nlc, kf, base, hist>>
@@ -44,8 +51,21 @@ SessIds == DOMAIN sys.tmo
 \* the block with what follows it ["a-", "z") (the same number of keys, but the client keys at other ranks)
 Ranges == {[s |-> <<>>, e |-> Kz]}
           \cup (IF base > 0 THEN {[s |-> <<97, DASH>>, e |-> <<97, 46>>], [s |-> <<97, DASH>>, e |-> Kz]} ELSE {})
+\* puts that combine session ownership with the other features of a put.  A sequence put is offered with and
+\* without a session (a generated record nobody owns must survive every session); index entries and version
+\* conditions only under a session.
+Ix == <<[n |-> <<105>>, k |-> <<117>>]>>       \* index "i", secondary key "u"
+CurVer(k) == IF Has(sys.st.kv, k) THEN {sys.st.kv[k].ver} ELSE {}
+FeatPuts(k, v, se) ==
+    (IF "seq" \in Feats THEN {[PutOf(k, v, se) EXCEPT !.pkey = TRUE, !.deltas = <<1>>]} ELSE {})
+    \cup (IF "idx" \in Feats /\ se # NoSess THEN {[PutOf(k, v, se) EXCEPT !.idx = Ix]} ELSE {})
+    \cup (IF "seq" \in Feats /\ "idx" \in Feats /\ se # NoSess
+          THEN {[PutOf(k, v, se) EXCEPT !.pkey = TRUE, !.deltas = <<1>>, !.idx = Ix]} ELSE {})
+    \cup (IF "cond" \in Feats /\ se # NoSess THEN {[PutOf(k, v, se) EXCEPT !.exp = x] : x \in {-1} \cup CurVer(k)} ELSE {})
+HasFeat(req) == \E i \in 1..Len(req.puts) : req.puts[i].deltas # <<>> \/ req.puts[i].idx # <<>> \/ req.puts[i].exp # NoExp
 ClientReqs ==
     {[NoReq EXCEPT !.puts = <<PutOf(k, 10 * (sys.n + 1), se)>>] : k \in Keys, se \in {NoSess} \cup SessIds}
+    \cup {[NoReq EXCEPT !.puts = <<p>>] : p \in UNION {FeatPuts(k, 10 * (sys.n + 1), se) : k \in Keys, se \in {NoSess} \cup SessIds}}
     \cup {[NoReq EXCEPT !.dels = <<[key |-> k, exp |-> NoExp]>>] : k \in Keys}
     \cup {[NoReq EXCEPT !.rngs = <<r>>] : r \in Ranges}
 
@@ -105,9 +125,11 @@ Steps == [][ Claimed => StepProps(sys, Cur, sys') ]_mvars
 Quiet == DOMAIN sys.pend = {}
 
 \* "steps": one behaviour per transition; "lagsteps": only those in which a node with a lagging DB was elected;
-\* "fillsteps": only those on a populated shard
+\* "fillsteps": only those on a populated shard; "featsteps": only those with a put that combines features
 ExportSteps == (\/ Export = "steps"
                 \/ (Export = "lagsteps" /\ \E i \in 1..Len(hist') : hist'[i].lag > 0)
-                \/ (Export = "fillsteps" /\ base' > 0)) => PrintT(<<"STEP", ToJson(hist')>>)
+                \/ (Export = "fillsteps" /\ base' > 0)
+                \/ (Export = "featsteps" /\ \E i \in 1..Len(hist') : hist'[i].a = "Write" /\ HasFeat(hist'[i].req)))
+               => PrintT(<<"STEP", ToJson(hist')>>)
 ExportRuns  == (Export = "runs" /\ TLCGet("level") >= RunDepth) => PrintT(<<"RUN", ToJson(hist)>>)
 =============================================================================
